@@ -204,6 +204,50 @@ def rtti_post(check):
                    "rtti facet and under deferred_static_rtti, self-checked against the Python oracle" % len(progs))
 
 
+def wide_post(check):
+    """C12 tier B: a 4-method with 40+ groups per dimension - strides above 65535, a dispatch table of
+    tens of thousands of cells (the tier-A harness cannot reach that with its 96 classes)"""
+    import gen_c12
+    import tierb
+    from vfcheck import base_seed
+    progs = gen_c12.programs(check.tier, base_seed() % 1000)
+    tierb.run_programs(check, progs, max_parallel=4, only_prefix=check.prop)
+    check.extra_evidence["tier_b_wide_stride_programs"] = len(progs)
+    check.rule += ("; plus tier B: %d generated program(s) whose 4-method has 42-45 groups in each of its first three "
+                   "dimensions (stride of the last parameter > 65535): numbers read back from the generated text = "
+                   "method::slots_strides, 3000 calls through the wide table" % len(progs))
+
+
+def frontend_policies_post(check):
+    """C14 tier B: two to four policies in one program through the public front-end - methods with the
+    same key and signature, the same functions added as definitions in several policies, the same
+    classes registered everywhere, interleaved updates and handler changes"""
+    import gen_c14
+    import tierb
+    from vfcheck import base_seed
+    progs = gen_c14.programs(check.tier, base_seed() % 1000)
+    tierb.run_programs(check, progs, max_parallel=8, only_prefix=check.prop)
+    check.extra_evidence["tier_b_multi_policy_programs"] = len(progs)
+    check.rule += ("; plus tier B: %d generated programs with 2-4 policies (default, rebind-first, replace-first/rebind-last "
+                   "with vptr_map, throw_error, indirect) whose methods share key, signature and definition functions; "
+                   "every policy is compared with the generator's table after each update / handler change" % len(progs))
+
+
+def frontend_threads_post(check):
+    """C16 tier B: threads calling methods of the default policy through the public front-end while one
+    more thread keeps updating another policy (stock shared flavour, the other static stock policy,
+    rebind / replace-derived ones); ThreadSanitizer builds, reports fatal"""
+    import gen_c16
+    import tierb
+    from vfcheck import base_seed
+    progs = gen_c16.programs(check.tier, base_seed() % 1000)
+    tierb.run_programs(check, progs, max_parallel=5, only_prefix=check.prop)
+    check.extra_evidence["tier_b_threaded_programs"] = len(progs)
+    check.rule += ("; plus tier B: %d generated multi-threaded programs on the stock policies (callers on default_policy, "
+                   "an updater on debug_shared / the other static stock policy / rebind- and replace-derived policies), "
+                   "g++ -fsanitize=thread with fatal reports, every call compared with the single-threaded answer" % len(progs))
+
+
 def clean_emit(check):
     import os, shutil
     emit = os.path.join(check.outdir, "emit")
@@ -282,7 +326,11 @@ def plan(prop, tier):
     if prop == "C12":
         c = harness_plan(prop, tier, [("rel", 10, 1000), ("asan", 6, 200)], [("rel", 14, 60000), ("asan", 14, 12000)])
         clean_emit(c)
-        c.post = compile_emitted
+
+        def post(check):
+            compile_emitted(check)
+            wide_post(check)
+        c.post = post
         return c
     if prop == "C13":
         c = harness_plan(prop, tier, [("rel", 10, 800), ("asan", 6, 150)], [("rel", 14, 50000), ("asan", 14, 10000)])
@@ -290,11 +338,14 @@ def plan(prop, tier):
         c.post = compile_emitted
         return c
     if prop == "C14":
-        return harness_plan(prop, tier, [("rel", 10, 400), ("asan", 6, 80)], [("rel", 14, 10000), ("asan", 14, 1500)])
+        c = harness_plan(prop, tier, [("rel", 10, 400), ("asan", 6, 80)], [("rel", 14, 10000), ("asan", 14, 1500)])
+        c.post = frontend_policies_post
+        return c
     if prop == "C15":
         return harness_plan(prop, tier, [("rel", 10, 1500), ("asan", 6, 300)], [("rel", 14, 60000), ("asan", 14, 12000)], level="fault_enumeration")
     if prop == "C16":
         c = harness_plan(prop, tier, [("tsan", 8, 8), ("rel", 6, 15), ("asan", 2, 4)], [("tsan", 12, 150), ("rel", 8, 200), ("asan", 6, 30)], min_eval=1000)
+        c.post = frontend_threads_post
         return c
     if prop == "C18":
         c = harness_plan(prop, tier, [("rel", 6, 3000), ("asan", 4, 800)], [("rel", 12, 1000000), ("asan", 8, 150000)], min_eval=1000)
